@@ -52,11 +52,11 @@ def oracle_value(db, d, rho, op, h0, tau):
     return tr.subst(m2)
 
 
-def setup(db, classes, tag='', statics=None):
-    hooks = sm.SquidsHooks(NSUN, order=sm.OrderOracle(classes, witness=getattr(classes, 'witness', None)))
+def setup(db, classes, tag='', statics=None, nsun=NSUN):
+    hooks = sm.SquidsHooks(nsun, order=sm.OrderOracle(classes, witness=getattr(classes, 'witness', None)))
     hooks.solver_tag = tag
     hooks.statics = statics
-    this, hooks, it = sm.new_solver(db, NX, NSUN, NRHOS, NSC, hooks=hooks)
+    this, hooks, it = sm.new_solver(db, NX, nsun, NRHOS, NSC, hooks=hooks)
     xv = this.value.fields['x'].value
     for k in range(NX):
         xv.fields['data'].value.cell(k).value = Poly.var('X%d' % k)
@@ -76,8 +76,8 @@ def h0_syms(xkey, nrh, d=NSUN):
     return [Poly.var('H0[%s,%d]_%d' % (xkey, nrh, k)) for k in range(d * d)]
 
 
-def op_cell():
-    return make_suv('op', NSUN, 'o')
+def op_cell(nsun=NSUN):
+    return make_suv('op', nsun, 'o')
 
 
 class Classes(list):
@@ -269,27 +269,40 @@ def check_history(db, rep):
     n = 0
     for name, npar, pred, kind in specs:
         f = db.one('SQuIDS', 'squids::SQuIDS::' + name, npar, pred)
-        for prior in ('same x', 'another x'):
+        priors = ['same x', 'another x'] + (['same x, a solver of another dimension'] if npar in (3, 5) else [])
+        for prior in priors:
             n += 1
             site = '%s/%d/after a query on another solver at %s' % (name, npar, prior)
             classes = [[nodes[0], 'Qp'], ['Q']] + [[m] for m in nodes[1:]] if prior == 'another x' else [[nodes[0]], ['Q']] + [[m] for m in nodes[1:]]
             statics = {}
-            other, hooks_b, it_b = setup(db, classes, tag="'", statics=statics)
+            nsun_b = NSUN + 1 if 'dimension' in prior else NSUN
+            other, hooks_b, it_b = setup(db, classes, tag="'", statics=statics, nsun=nsun_b)
             this, hooks_a, it_a = setup(db, classes, tag='', statics=statics)
+            numeric_prior = nsun_b != NSUN
+            if numeric_prior:
+                # only what the earlier query leaves behind matters, not its value: numbers keep the larger dimension cheap
+                hooks_b.numeric_terms = True
+                for k in range(hooks_b.system_region.size):
+                    hooks_b.system_region.cell(k).value = Poly.const(0.25 + 0.0625 * k)
+                other.value.fields['t'].value = Poly.const(1.5)
+                other.value.fields['t_ini'].value = Poly.const(0)
             buf = None
             if npar in (4, 6):
                 fb = db.one('SQuIDS', 'squids::SQuIDS::expectationValueDBuffer::expectationValueDBuffer', 1)
                 buf = Cell(Obj('squids::SQuIDS::expectationValueDBuffer', None, 'buf'), None, 0, 'buf')
                 it_b.call(fb, buf, [NSUN])
 
-            def args_for(q):
-                opc, _ = op_cell()
+            def args_for(q, nsun=NSUN):
+                if nsun != NSUN:
+                    opc, _ = make_suv('op', nsun, 'o', content=lambda k: Poly.const(0.5 - 0.03125 * k))
+                else:
+                    opc, _ = op_cell(nsun)
                 a = [opc, NRH, q] + ([buf] if buf is not None else [])
                 if npar in (5, 6):
-                    a += [Poly.var('scale'), make_vector('avr', NSUN * (NSUN - 1) // 2, lambda k: 0)]
+                    a += [Poly.const(1e30) if nsun != NSUN else Poly.var('scale'), make_vector('avr', nsun * (nsun - 1) // 2, lambda k: 0)]
                 return a
             try:
-                it_b.call(f, other, args_for(Poly.var('Q') if prior == 'same x' else Poly.var('Qp')))
+                it_b.call(f, other, args_for(Poly.var('Qp') if prior == 'another x' else Poly.var('Q'), nsun_b))
                 r = it_a.call(f, this, args_for(Poly.var('Q')))
             except Thrown as t:
                 rep.fail('D.history', site, unit.loc(t.node), 'the value a fresh buffer gives', 'throw: %s' % t.what, f['name'])
@@ -303,7 +316,7 @@ def check_history(db, rep):
                 detail = '; '.join(rv.diff_terms(want, limit=3)) if isinstance(rv, Poly) else guarded.explain(rv, want)
                 rep.fail('D.history', site, unit.loc(f), 'the value a fresh buffer gives: interpolated state of this solver, H0 of this solver at x',
                          'the answer depends on the earlier use of the buffer: ' + detail[:300], f['name'])
-    rep.floor('D.history', n, 8)
+    rep.floor('D.history', n, 10)
 
 
 def run(db, rep, tier):
